@@ -130,7 +130,8 @@ Fixpoint index_is_exact (q : query) : bool :=
   match q with
   | QNot q' => if is_field_simple q' then false else index_is_exact q'
   | QAnd l r | QOr l r => index_is_exact l && index_is_exact r
-  | _ => true
+  | QS _ path _ => path_hashable path          (* a map() in the path: _hash is None *)
+  | QNoop _ => true
   end.
 
 Definition sort_points (l : list point) : list point :=
@@ -250,43 +251,47 @@ Definition db_select (s : state) (ks : option (list selkey)) q m : state * out :
 Definition reset_database (s : state) : state :=
   mkState [] (if st_auto s then ix_reset (st_idx s) else ix_invalidate (st_idx s)) (st_auto s).
 
+(* the scan of _remove_helper: a row is removed iff it passes the measurement filter and the
+   query is true; positions ascending *)
+Fixpoint scan_positions (q : query) (m : option str) (i : nat) (rows : list point) : option (list nat) :=
+  match rows with
+  | [] => Some []
+  | p :: r => if meas_pass m p then
+                match eval E q p with
+                | RRaise => None
+                | RB b => option_map (fun l => if b then i :: l else l) (scan_positions q m (S i) r)
+                end
+              else scan_positions q m (S i) r
+  end.
+
+(* the tail of _remove_helper once the positions to remove are known.
+   removed: ascending positions; kept rows keep their order *)
+Definition remove_finish (use_index : bool) (removed : list nat) (s : state) : state * out :=
+  if negb (nonempty removed) then (s, ONat 0)
+  else if Nat.eqb (length removed) (length (st_rows s)) then (reset_database s, ONat (length removed))
+  else
+    let rows' := map snd (filter (fun ip => negb (mem (fst ip) removed)) (combine (seq 0 (length (st_rows s))) (st_rows s))) in
+    let f := fun i => i - length (filter (fun r => Nat.ltb r i) removed) in
+    let idx' := if st_auto s && use_index
+                then ix_renumber (ix_remove (st_idx s) (fun i => mem i removed) (length removed)) f
+                else ix_invalidate (st_idx s) in
+    (mkState rows' idx' (st_auto s), ONat (length removed)).
+
 (* _remove_helper after the decorators *)
 Definition remove_helper (s : state) q m : state * out :=
   let use_index := ix_valid (st_idx s) && index_is_exact q in
-  let finish (removed : list nat) (s : state) :=
-    (* removed: ascending positions; kept rows keep their order *)
-    if negb (nonempty removed) then (s, ONat 0)
-    else if Nat.eqb (length removed) (length (st_rows s)) then (reset_database s, ONat (length removed))
-    else
-      let rows' := map snd (filter (fun ip => negb (mem (fst ip) removed)) (combine (seq 0 (length (st_rows s))) (st_rows s))) in
-      let f := fun i => i - length (filter (fun r => Nat.ltb r i) removed) in
-      let idx' := if st_auto s && use_index
-                  then ix_renumber (ix_remove (st_idx s) (fun i => mem i removed) (length removed)) f
-                  else ix_invalidate (st_idx s) in
-      (mkState rows' idx' (st_auto s), ONat (length removed)) in
   if use_index then
     match isearch E (st_idx s) (with_meas m q) with
     | None => (s, ORaise)
     | Some [] => (s, ONat 0)
     | Some items =>
         if Nat.eqb (length items) (ix_n (st_idx s)) then (reset_database s, ONat (length items))
-        else finish (filter (fun i => mem i items) (seq 0 (length (st_rows s)))) s
+        else remove_finish use_index (filter (fun i => mem i items) (seq 0 (length (st_rows s)))) s
     end
   else
-    (* scan: a row is removed iff it passes the measurement filter and the query is true *)
-    let fix go (i : nat) (rows : list point) : option (list nat) :=
-      match rows with
-      | [] => Some []
-      | p :: r => if meas_pass m p then
-                    match eval E q p with
-                    | RRaise => None
-                    | RB b => option_map (fun l => if b then i :: l else l) (go (S i) r)
-                    end
-                  else go (S i) r
-      end in
-    match go 0 (st_rows s) with
+    match scan_positions q m 0 (st_rows s) with
     | None => (s, ORaise)
-    | Some removed => finish removed s
+    | Some removed => remove_finish use_index removed s
     end.
 
 Definition db_remove (s : state) q m : state * out := remove_helper (read_prelude s) q m.
